@@ -9,6 +9,7 @@ package main
 import (
 	"flag"
 	"fmt"
+	"hash/fnv"
 	"os"
 	"sort"
 	"strings"
@@ -53,8 +54,8 @@ func main() {
 		len(names), entry.NumCombos(), len(cs), entry.Timeouts(), dt.Seconds())
 
 	type stat struct {
-		n, ok, err, pan, changed int
-		masks                    map[int]bool
+		n, ok, err, pan, changed, rep int
+		masks                         map[int]bool
 	}
 	st := map[string]*stat{}
 	for _, c := range cs {
@@ -76,22 +77,29 @@ func main() {
 		if len(c.Changed) > 0 {
 			s.changed++
 		}
+		if len(c.RepChanged) > 0 {
+			s.rep++
+		}
 	}
-	fmt.Printf("%-52s %6s %6s %5s %5s %5s %7s\n", "entry", "combos", "cases", "ok", "err", "panic", "changed")
-	totalChanged := 0
+	fmt.Printf("%-52s %6s %6s %5s %5s %5s %7s %7s\n", "entry", "combos", "cases", "ok", "err", "panic", "changed", "repchg")
+	totalChanged, totalRep := 0, 0
 	for i, nm := range names {
 		s := st[nm]
 		if s == nil {
 			s = &stat{}
 		}
 		totalChanged += s.changed
-		fmt.Printf("%-52s %6d %6d %5d %5d %5d %7d\n", nm, combos[i], s.n, s.ok, s.err, s.pan, s.changed)
+		totalRep += s.rep
+		fmt.Printf("%-52s %6d %6d %5d %5d %5d %7d %7d\n", nm, combos[i], s.n, s.ok, s.err, s.pan, s.changed, s.rep)
 	}
 	avg := 0
 	if len(cs) > 0 {
 		avg = len(txt) / len(cs)
 	}
-	fmt.Printf("cases with a changed input: %d; Coq text: %d bytes (%d per case)\n", totalChanged, len(txt), avg)
+	hh := fnv.New64a()
+	hh.Write([]byte(txt))
+	fmt.Printf("cases with only a representation change of an input: %d\n", totalRep)
+	fmt.Printf("cases with a changed input: %d; Coq text: %d bytes (%d per case), fnv64a %016x\n", totalChanged, len(txt), avg, hh.Sum64())
 
 	fail := false
 	// determinism
@@ -108,7 +116,7 @@ func main() {
 	bad := 0
 	for _, c := range cs {
 		r, err := entry.Replay(c.Spec)
-		if err != nil || r.Coq() != c.Coq() || r.Outcome != c.Outcome {
+		if err != nil || r.Coq() != c.Coq() || r.Outcome != c.Outcome || strings.Join(r.RepChanged, ",") != strings.Join(c.RepChanged, ",") {
 			bad++
 			if bad <= 5 {
 				fmt.Printf("  replay mismatch: %s mask=%d err=%v\n", c.Entry, c.OptMask, err)
@@ -157,10 +165,13 @@ func main() {
 		var keys []string
 		byKey := map[string]entry.Case{}
 		for _, c := range cs {
-			if len(c.Changed) == 0 {
+			if len(c.Changed) == 0 && len(c.RepChanged) == 0 {
 				continue
 			}
 			k := c.Entry + " / " + strings.Join(c.Changed, ",")
+			if len(c.Changed) == 0 {
+				k = c.Entry + " / REP " + strings.Join(c.RepChanged, ",")
+			}
 			if !seen[k] {
 				seen[k] = true
 				keys = append(keys, k)
@@ -180,6 +191,15 @@ func main() {
 					if ch == o.Name {
 						mark = "*"
 					}
+				}
+				for _, ch := range c.RepChanged {
+					if ch == o.Name {
+						mark = "r"
+					}
+				}
+				if mark == "r" {
+					fmt.Printf("  r %-28s %-10s rep before=%v\n    %-39s rep after =%v\n", o.Name, o.Role, o.RepBefore, "", o.RepAfter)
+					continue
 				}
 				if mark == "*" || *verbose {
 					fmt.Printf("  %s %-28s %-10s before=%v\n    %-39s after =%v\n", mark, o.Name, o.Role, o.Before, "", o.After)
